@@ -176,7 +176,10 @@ pub fn register_c07(s: &Session) {
     std::thread::scope(|scope| {
         for inst in 0..4 {
             scope.spawn(move || {
-                s.gen(&format!("otlp-e2e-flush-{inst}"), cases, flush_case, |c, cx| res(check_c07(c, cx), |p| s.inconclusive(format!("harness: {p}"))));
+                let guard = ShrinkGuard::new(40, 45);
+                s.gen(&format!("otlp-e2e-flush-{inst}"), cases, flush_case, |c, cx| {
+                    guard.run(s, cx, |cx| res(check_c07(c, cx), |p| s.inconclusive(format!("harness: {p}"))))
+                });
             });
         }
     });
@@ -318,7 +321,10 @@ pub fn register_c08(s: &Session) {
     std::thread::scope(|scope| {
         for inst in 0..8 {
             scope.spawn(move || {
-                s.gen(&format!("otlp-e2e-progress-{inst}"), cases, progress_case, |c, cx| res(check_c08(c, cx), |p| s.inconclusive(format!("harness: {p}"))));
+                let guard = ShrinkGuard::new(12, 45);
+                s.gen(&format!("otlp-e2e-progress-{inst}"), cases, progress_case, |c, cx| {
+                    guard.run(s, cx, |cx| res(check_c08(c, cx), |p| s.inconclusive(format!("harness: {p}"))))
+                });
             });
         }
     });
